@@ -114,6 +114,10 @@ func VerifyFunc(p *Program, fc *FuncContract, opts VerifyOpts) (rep *FuncReport)
 			return rep
 		}
 	}
+	// fresh names are numbered per verification unit: the text of a unit's obligations (and with it the solvers' behaviour)
+	// does not depend on which other units are verified in the same run
+	freshCounter = 0
+	heapDefs = map[string]*Term{}
 	x := NewExec(p)
 	x.top, x.topKey, x.fc = fn, fc.Key(), fc
 	x.fuel = fc.Fuel
@@ -383,6 +387,8 @@ func (x *Exec) frameObligations(st *State, env *SpecEnv, fc *FuncContract) {
 
 func VerifyLemma(p *Program, lm *Lemma) *FuncReport {
 	rep := &FuncReport{Key: "lemma:" + lm.Name}
+	freshCounter = 0
+	heapDefs = map[string]*Term{}
 	x := NewExec(p)
 	x.topKey = "lemma:" + lm.Name
 	x.fuel = lm.Fuel
